@@ -459,6 +459,8 @@ val container_to_table : span -> (char list * series) list -> table tres
 
 type flinker = { lname : cell; lmodel : fmodel; lsubs : (cell * fmodel) list }
 
+val linker_name_free : cell -> (cell * fmodel) list -> bool
+
 val dset : cell -> 'a1 -> (cell * 'a1) list -> (cell * 'a1) list
 
 val linker_subs :
